@@ -2,7 +2,7 @@
 import ast
 
 from .core import AnalysisError, iter_nodes, norm, cnorm
-from . import astq
+from . import astq, sem
 from .astq import parents, calls_named, definitions, enclosing_ifs, const_int, attr_tail
 from .linform import Lin, to_lin
 
@@ -66,9 +66,11 @@ def rule_SG2(ctx, rep):
                 continue
             n += 1
             pm = pm or parents(fn.node)
-            guards = [(norm(i.test), br) for i, br in enclosing_ifs(c, pm, stop=fn.node)]
-            fx = any(br == 'body' and ('frac_length' in t or 'SecureFixedPoint' in t) and not t.startswith('not ') for t, br in guards) or \
-                any(br == 'orelse' and t.startswith('not ') and 'frac_length' in t for t, br in guards)
+            # the path condition of the call (if statements, conditional expressions, flags, early exits) forces a fixed-point type
+            from . import cond
+            cx = cond.context(fn, c, pm)
+            fx = any(('frac_length' in a and '==' not in a) or 'SecureFixedPoint' in a for a in cond.implied(cx)) or \
+                any('frac_length' in a and '== 0' in a.replace('0 ==', '== 0') for a in cond.refuted(cx))
             if fx:
                 rep.ok('SG2', fn, c, 'integral= passed only under a fixed-point guard')
             else:
@@ -194,10 +196,11 @@ def _skeleton(ctx, fn):
                 add('prss', 'share', cond.context(fn, c, pm))
         if isinstance(c, ast.AugAssign) and isinstance(c.op, ast.Add) and norm(c.target) == 'l':
             add('headroom', norm(c.value), cond.TRUE)
-        if isinstance(c, ast.Assign) and norm(c.targets[0]) == 'd' and isinstance(c.value, ast.IfExp):
-            add('divisor', norm(c.value), cond.TRUE)
         if isinstance(c, ast.Assign) and norm(c.targets[0]) == 'bound' and 'bit_length' in norm(c.value):
-            add('divisor', norm(c.value), cond.TRUE)
+            # the reduced bound per contributor, with temporaries and conditional expressions resolved into cases
+            cx = cond.context(fn, c, pm)
+            for f, v in cond.expr_cases(fn, c.value, c, pm):
+                add('divisor', cnorm(sem.symx(v)), cond.conj([cx, f]))
     return ev
 
 
